@@ -283,6 +283,37 @@ def d6_naming(ctx, mod):
 OPS = {'__add__': ast.Add, '__mul__': ast.Mult, '__truediv__': ast.Div, '__matmul__': ast.MatMult, '__rmatmul__': ast.MatMult}
 
 
+def _subst(node, subst):
+    import copy as _copy
+    if not subst:
+        return node
+
+    class R(ast.NodeTransformer):
+        def visit_Name(self, n):
+            if n.id in subst and isinstance(n.ctx, ast.Load):
+                return ast.parse(subst[n.id], mode='eval').body
+            return n
+    return ast.fix_missing_locations(R().visit(_copy.deepcopy(node)))
+
+
+def loop_view(loop, y):
+    """(index name, {loop variable: element expression}, header runs over all timeslices)"""
+    it = unparse(loop.iter)
+    tg = loop.target
+    if isinstance(tg, ast.Name) and it in ('range(self.T)', 'range(len(self.content))'):
+        return tg.id, {}, True
+    seqs = ('self.content', '%s.content' % y)
+    if isinstance(tg, ast.Name) and it == 'self.content':
+        return 't', {tg.id: 'self.content[t]'}, True
+    if isinstance(loop.iter, ast.Call) and call_name(loop.iter) == 'enumerate' and len(loop.iter.args) == 1 and unparse(loop.iter.args[0]) in seqs and isinstance(tg, ast.Tuple) \
+            and len(tg.elts) == 2 and all(isinstance(x, ast.Name) for x in tg.elts):
+        return tg.elts[0].id, {tg.elts[1].id: '%s[%s]' % (unparse(loop.iter.args[0]), tg.elts[0].id)}, unparse(loop.iter.args[0]) == 'self.content'
+    if isinstance(loop.iter, ast.Call) and call_name(loop.iter) == 'zip' and isinstance(tg, ast.Tuple) and len(tg.elts) == len(loop.iter.args) and all(isinstance(x, ast.Name) for x in tg.elts) \
+            and all(unparse(a) in seqs for a in loop.iter.args):
+        return 't', {x.id: '%s[t]' % unparse(a) for x, a in zip(tg.elts, loop.iter.args)}, any(unparse(a) == 'self.content' for a in loop.iter.args)
+    return unparse(tg), {}, False
+
+
 def d7_operators(ctx, mod):
     rule = 'C14-D7'
     n = 0
@@ -303,8 +334,10 @@ def d7_operators(ctx, mod):
             loop = mod.parents.get(c)
             while not isinstance(loop, ast.For):
                 loop = mod.parents[loop]
-            t = unparse(loop.target)
-            l, r = unparse(e.left), unparse(e.right)
+            # the loop is read as `for t in timeslices`: index loops, and loops over the content lists themselves (element,
+            # enumerate, zip of the two operands) whose variables stand for the entries at one common t (T = len(content))
+            t, subst, it_ok = loop_view(loop, y)
+            l, r = unparse(_subst(e.left, subst)), unparse(_subst(e.right, subst))
             corr_branch = 'Corr' in branch and 'isinstance(%s, Corr)' % y in branch
             if name == '__rmatmul__':
                 want = (y, 'self.content[%s]' % t)
@@ -312,7 +345,7 @@ def d7_operators(ctx, mod):
                 want = ('self.content[%s]' % t, '%s.content[%s]' % (y, t))
             else:
                 want = ('self.content[%s]' % t, y)
-            ok = type(e.op) is op and (l, r) == want and unparse(loop.iter) == 'range(self.T)'
+            ok = type(e.op) is op and (l, r) == want and it_ok
             ctx.check(rule, key, ok, 'entry t = %s %s %s' % (want[0], op.__name__, want[1]),
                       'entry t of the result is %s; the operation %s requires %s %s %s at the same timeslice' % (unparse(e), name, want[0], op.__name__, want[1]), mod.loc(c))
     ctx.floor('operator element expressions', n, 10)
